@@ -5,6 +5,8 @@ package main
 // argument atoms, a constant, or a join of alternatives.
 
 import (
+	"strconv"
+	"regexp"
 	"fmt"
 	"go/constant"
 	"go/token"
@@ -38,6 +40,8 @@ type Prov struct {
 	loadCtx  []ssa.Instruction // the load instruction(s) through which the current value is read
 	expansions map[string]string // atom of a call to a single-expression module helper -> atom of its body
 	reachMemo map[[2]*ssa.BasicBlock]bool
+	tables     [][]string            // see tableOf: rows of local literal tables, as lit{...} atoms
+	tableIDs   map[string]int
 	globalConst map[*ssa.Global]*ssa.Const // see constGlobal
 	globalScan  bool
 }
@@ -613,6 +617,9 @@ func (pv *Prov) Atom(v ssa.Value, env *Env) string {
 		}
 		return "const:" + x.Value.ExactString()
 	case *ssa.Alloc:
+		if id, ok := pv.tableOf(x, env); ok {
+			return fmt.Sprintf("tbl#%d", id)
+		}
 		whole, _ := pv.storesTo(x, -1)
 		if len(whole) == 0 {
 			// composite literal built field by field
@@ -1003,4 +1010,109 @@ func (pv *Prov) constGlobal(g *ssa.Global) *ssa.Const {
 		}
 	}
 	return pv.globalConst[g]
+}
+
+// tableOf: a local array of structs filled row by row through constant indices (a composite literal such as
+// "[...]struct{indices []uint64; n int}{{a, len(x)}, {b, len(y)}}") and only read afterwards. A loop over such a
+// table states one fact per row; the guard engine expands a condition on "tbl#N[*].field" into its rows.
+func (pv *Prov) tableOf(al *ssa.Alloc, env *Env) (int, bool) {
+	at, ok := al.Type().Underlying().(*types.Pointer).Elem().Underlying().(*types.Array)
+	if !ok || at.Len() == 0 || at.Len() > 64 {
+		return 0, false
+	}
+	if _, isStruct := at.Elem().Underlying().(*types.Struct); !isStruct {
+		return 0, false
+	}
+	rows := make([]string, at.Len())
+	filled := 0
+	for _, r := range *al.Referrers() {
+		switch x := r.(type) {
+		case *ssa.IndexAddr:
+			k, isConst := x.Index.(*ssa.Const)
+			for _, rr := range *x.Referrers() {
+				st, isSt := rr.(*ssa.Store)
+				if isSt && st.Addr == ssa.Value(x) {
+					if !isConst || k.Value == nil {
+						return 0, false // written through a variable index
+					}
+					i, exact := constant.Int64Val(k.Value)
+					if !exact || i < 0 || i >= at.Len() || rows[i] != "" {
+						return 0, false
+					}
+					a := pv.Atom(st.Val, env)
+					if !strings.HasPrefix(a, "lit{") {
+						return 0, false
+					}
+					rows[i] = a
+					filled++
+					continue
+				}
+				switch rr.(type) {
+				case *ssa.UnOp, *ssa.FieldAddr, *ssa.DebugRef:
+				default:
+					return 0, false
+				}
+			}
+		case *ssa.UnOp, *ssa.DebugRef:
+		case *ssa.Store:
+			if x.Addr == ssa.Value(al) {
+				return 0, false // overwritten as a whole
+			}
+		default:
+			return 0, false
+		}
+	}
+	if filled != int(at.Len()) {
+		return 0, false
+	}
+	key := strings.Join(rows, "\x00")
+	if pv.tableIDs == nil {
+		pv.tableIDs = map[string]int{}
+	}
+	if id, ok := pv.tableIDs[key]; ok {
+		return id, true
+	}
+	pv.tables = append(pv.tables, rows)
+	pv.tableIDs[key] = len(pv.tables) - 1
+	return len(pv.tables) - 1, true
+}
+
+var tblRefRe = regexp.MustCompile(`tbl#(\d+)\[\*\]\.(\w+)`)
+
+// expandTable: the per-row instances of atoms l and r when they refer to rows of ONE literal table.
+func (pv *Prov) expandTable(l, r string) [][2]string {
+	ms := tblRefRe.FindAllStringSubmatch(l+" "+r, -1)
+	if len(ms) == 0 {
+		return nil
+	}
+	id := ms[0][1]
+	for _, m := range ms {
+		if m[1] != id {
+			return nil
+		}
+	}
+	n, _ := strconv.Atoi(id)
+	if n < 0 || n >= len(pv.tables) {
+		return nil
+	}
+	var out [][2]string
+	for _, row := range pv.tables[n] {
+		ok := true
+		sub := func(s string) string {
+			return tblRefRe.ReplaceAllStringFunc(s, func(m string) string {
+				f := tblRefRe.FindStringSubmatch(m)[2]
+				v, found := projectLit(row, f)
+				if !found {
+					ok = false
+					return m
+				}
+				return v
+			})
+		}
+		a, b := sub(l), sub(r)
+		if ok && !strings.Contains(a, "tbl#") && !strings.Contains(b, "tbl#") {
+			out = append(out, [2]string{a, b})
+		}
+	}
+	return out
 }
